@@ -70,7 +70,7 @@ func runC12(r *Run) {
 	r.Has(av, "new(big.Int).Add($fp,$committed)", "fused + committed of the acknowledged view")
 	r.Has(av, "$ans", "− chain plasma of the block's own (pending) account state")
 	r.Returns(av, []string{"0, a0.GetAccountStore(a1.Address()).GetChainPlasma()#1", "0, a0.GetStakeBeneficialAmount(a1.Address())#1", "0, a1.GetChainPlasma()#1",
-		"0, errors.Errorf(\"got negative available plasma\",nil)", "500000000000, nil", "$ans.Uint64(), nil"}, "result forms of AvailablePlasma")
+		"0, errors.Errorf(…)", "500000000000, nil", "$ans.Uint64(), nil"}, "result forms of AvailablePlasma")
 	r.Branch(av, "lt(constants.MaxFussedAmountForAccountBig,$ans)", "result is capped")
 
 	r.Branch("vm.DifficultyToPlasma", "eq(0,a0)", "zero difficulty earns nothing")
